@@ -36,7 +36,7 @@ type RoundOpts struct {
 // caused by slowness alone (and therefore must be confirmed by a re-run).
 func timeDependent(ev string) bool {
 	switch ev {
-	case "fin", "wait", "blocked", "started", "timeout", "census":
+	case "fin", "wait", "blocked", "started", "timeout", "census", "postdeliver":
 		return true
 	}
 	return false
